@@ -6,7 +6,7 @@ From Coq Require Import ZArith.
 From GS Require Import Errs Composite CompositeMon.
 Extraction Language OCaml.
 Extraction "m_composite.ml"
-  accept accept0 accept1 depth C09_holdsb C10_holdsb C11_holdsb membership_changed same_name_set
+  accept accept0 accept1 depth kid_census worker_census C09_holdsb C10_holdsb C11_holdsb membership_changed same_name_set
   is_cancel wraps leaves classify fail_result user_leaves
   step obs taus vis init key event_eqb
   Z.of_N. (* Z.of_N only so that ocaml/util.ml (shared) finds the type z *)
